@@ -25,6 +25,9 @@ def scenarios(thorough):
             out.append({"kind": "hostile", "t": t, "what": what})
     for t in ("tls", "wss"):
         out.append({"kind": "hostile", "t": t, "what": "bad-handshake"})
+        # round 8: clients that present a (self-signed) client certificate: the listeners ask for one without requiring it
+        out.append({"kind": "pubsub", "t": t, "k": 9, "cert": True})
+        out.append({"kind": "hostile", "t": t, "what": "many-idle-connections", "k": 10, "cert": True})
     if thorough:
         out += [{"kind": "slowreader", "t": t} for t in TRANSPORTS for _ in range(3)]
     return out
